@@ -7,7 +7,7 @@ Local Open Scope Z_scope.
 Check C05_forward_reader_prints_the_selection :
   forall (o : opt) (L : list bytes) (bs : list bof),
     L <> [] -> bs <> [] -> fwd_ok 1 (Z.of_nat (length L)) bs -> last_marked bs ->
-    (N.eqb (o_eol o) LF = true -> Forall (fun l => utf8_valid l = true) L) ->
+    Forall (fun l => utf8_valid l = true) L ->
     exists x, spec_items L (o_fallback o) (o_join o) [o_eol o] bs = Some x
               /\ fwd_lines o L bs false 0 [] = Done (x ++ [o_eol o]).
 Print Assumptions C05_forward_reader_prints_the_selection.
